@@ -598,6 +598,27 @@ def check_C16(run: Run):
             run.violation("gate equality is not symmetric", {"a": d[0], "b": d[1]})
     for _, gt in pool:
         if O.impl_gateeq(gt, gt)["v"] is not True: run.violation("gate equality is not reflexive", {"a": gt})
+    # circuit equality: tie with the model's `circuitEq` on pairs of related circuits
+    cpairs = []
+    for _ in range(run.n(80, 1200)):
+        c = g.circuit(kinds="all", allow_band=False, length=rng.randint(1, 6))
+        d = copy.deepcopy(c)
+        m_ = rng.randrange(6)
+        if m_ == 0 and d["stmts"]: d["stmts"] = d["stmts"][:-1]
+        elif m_ == 1 and d["stmts"]:
+            i = rng.randrange(len(d["stmts"]))
+            if d["stmts"][i]["k"] == "gate": d["stmts"][i] = g.gate1(R.gate_ops(d["stmts"][i]["g"])[0], False)
+        elif m_ == 2: d["nb"] += 1
+        elif m_ == 3 and d["stmts"]:
+            i = rng.randrange(len(d["stmts"]))
+            if d["stmts"][i]["k"] == "measure": d["stmts"][i] = {**d["stmts"][i], "b": (d["stmts"][i]["b"] + 1) % max(1, d["nb"])}
+        elif m_ == 4 and len(d["stmts"]) >= 2: d["stmts"][0], d["stmts"][1] = d["stmts"][1], d["stmts"][0]
+        cpairs.append({"a": c, "b": d})
+    def cmp_ce(c, r, m):
+        if m is None: return None
+        return None if (r["err"], r["v"]) == (m["err"], m["v"]) else f"circuit == gives {r['v']}/{r['err']} vs model {m['v']}/{m['err']}"
+    batch_tie(run, "circuit == circuit", cpairs, lambda c: O.req_circuiteq(c["a"], c["b"]), lambda c: O.impl_circuiteq(c["a"], c["b"]), O.parse_bool, cmp_ce)
+    for c in cpairs: run.count(c, tag="circuit-pair")
     # circuit equality is statement-wise
     from opensquirrel.ir import IR
     for _ in range(run.n(40, 400)):
